@@ -51,13 +51,20 @@ def instances(tier, seed):
     if tier == "quick":
         keep2 = {"ED", "DD", "EB", "SD", "CD", "ND", "LE", "DR", "RD", "BD", "DS", "NN", "EL"}
         words = [w for w in words if len(w) <= 1 or w in keep2]
+    if tier != "quick":
+        # thorough = the quick instances, then every word of <= 2 classes with every (CSI form, callback, report), then the
+        # words of 3 classes in chunks of 16 with the report variant rotating over the chunks
+        out += instances("quick", seed)
+    short_end = len([w for w in words if len(w) <= 2])
     for csi in ("7", "8"):
         for cb in (True, False):
             for vi in range(len(VARIANTS)):
                 for i in range(0, len(words), per):
                     if tier == "quick" and (csi, cb, vi) not in (("7", True, 1), ("7", False, 0), ("8", True, 2), ("8", False, 3), ("8", True, 4), ("7", False, 4)):
                         continue
-                    out.append({"name": "parse-csi%s-%s-v%d-%03d" % (csi, "cb" if cb else "nocb", vi, i), "fn": "parse", "timeout": T, "cost": 3,
+                    if tier != "quick" and i >= short_end and ((i // per) % (4 * len(VARIANTS)) != vi * 4 + (csi == "8") * 2 + cb):
+                        continue
+                    out.append({"name": "parse-csi%s-%s-v%d-%03d%s" % (csi, "cb" if cb else "nocb", vi, i, "" if tier == "quick" else "t"), "fn": "parse", "timeout": T, "cost": 3,
                                 "params": {"csi": csi, "cb": cb, "lo": i, "hi": i + per, "maxextra": maxextra, "variant": vi, "quickwords": tier == "quick"}})
     # (c) the baseline really left by a render: enter, render (cursor row symbolic, rows scrolled off the top included), the
     # content moves k rows, get_cursor_vertical_diff - against the terminal model of C07 (which answers the cursor query)
@@ -65,12 +72,18 @@ def instances(tier, seed):
         for r0 in range(h):
             out.append({"name": "renderdiff-%dx%d-r%d" % (h, w, r0), "fn": "render_diff", "timeout": T, "cost": 4,
                         "params": {"h": h, "w": w, "r0": r0, "sb": 0, "A": 0, "keep": False, "hide": False, "cc": 0, "seed": seed,
-                                   "limit": 12 if tier == "quick" else 100000, "rd": True}})
+                                   "limit": 12 if tier == "quick" else 60, "rd": True}})
     for nq in (1, 2, 3):
         for last in ("none", "int"):
             out.append({"name": "diff-q%d-%s" % (nq, last), "fn": "diff", "timeout": T, "cost": 4,
                         "params": {"nq": nq, "last": last, "maxmove": {1: 12, 2: 4, 3: 2}[nq] if tier == "quick" else {1: 12, 2: 12, 3: 6}[nq]}})
-    return out
+    seen = set()
+    uniq = []
+    for inst in out:
+        if inst["name"] not in seen:
+            seen.add(inst["name"])
+            uniq.append(inst)
+    return uniq
 
 
 # (row digits, column digits, read indices that raise OSError first, class of one trailing character or None)
